@@ -54,7 +54,8 @@ ADel(m, ks)   == [x \in DOMAIN m \ ks |-> m[x]]
 SeqSet(s)     == {s[i] : i \in DOMAIN s}
 DeadOf(s)     == IF s \in DOMAIN aDead THEN aDead[s] ELSE {}
 
-NoRet == [g |-> 0, k |-> "", play |-> 0, ok |-> FALSE, slots |-> <<>>, rows |-> <<>>, forb |-> <<>>]
+NoRet == [g |-> 0, k |-> "", play |-> 0, ok |-> FALSE, slots |-> <<>>, rows |-> <<>>, forb |-> <<>>,
+          placement |-> TRUE, produced |-> TRUE, fresh |-> TRUE]
 NoEmp == [size |-> 0, chunks |-> 0, len |-> 0, buckets |-> 0]
 
 AInit == /\ aLoads = <<>> /\ aFin = {} /\ aInv = <<>> /\ aDead = <<>> /\ aGets = <<>>
@@ -91,10 +92,43 @@ AGetBegin(g, k, play, slots) ==
                                 forb |-> [s \in SeqSet(slots) |-> DeadOf(s)]])
     /\ UNCHANGED <<aLoads, aFin, aInv, aDead, aRet, aQui, aEmp>>
 
+(* ---- the property, evaluated for the request that returns (R = the observation) ---- *)
+Checked(R) == R.ok /\ R.play = 0                 \* only successful non-play requests are constrained
+(* position of slot s in the sequence of slots load l asked for (0 = not covered) *)
+PosIn(l, s) == IF \E p \in DOMAIN aLoads[l].slots : aLoads[l].slots[p] = s
+               THEN CHOOSE p \in DOMAIN aLoads[l].slots : aLoads[l].slots[p] = s ELSE 0
+GoodLoad(R, l, s) == /\ l \in DOMAIN aLoads /\ aLoads[l].st = "ok"
+                     /\ aLoads[l].k = R.k /\ PosIn(l, s) # 0
+
+PlacementOf(R) ==
+    Checked(R) => /\ Len(R.rows) = Len(R.slots)
+                  /\ \A i \in 1..Len(R.slots) : \A j \in DOMAIN R.rows[i] :
+                         R.rows[i][j][1] = R.k /\ R.rows[i][j][2] = R.slots[i]
+
+ProducedOf(R) ==
+    (Checked(R) /\ Len(R.rows) = Len(R.slots)) =>
+        \A i \in 1..Len(R.slots) :
+            LET rs == R.rows[i]
+                s  == R.slots[i]
+            IN IF Len(rs) = 0
+               THEN \E l \in DOMAIN aLoads : GoodLoad(R, l, s) /\ aLoads[l].cnt[PosIn(l, s)] = 0
+                                              /\ l \notin R.forb[s]
+               ELSE LET l == rs[1][3]
+                    IN /\ \A j \in DOMAIN rs : rs[j][3] = l
+                       /\ GoodLoad(R, l, s)
+                       /\ Len(rs) = aLoads[l].cnt[PosIn(l, s)]
+                       /\ {rs[j][4] : j \in DOMAIN rs} = 0..(Len(rs) - 1)
+
+FreshOf(R) ==
+    (Checked(R) /\ Len(R.rows) = Len(R.slots)) =>
+        \A i \in 1..Len(R.slots) : \A j \in DOMAIN R.rows[i] : R.rows[i][j][3] \notin R.forb[R.slots[i]]
+
 AGetEnd(g, ok, rows) ==
     /\ g \in DOMAIN aGets
-    /\ aRet' = [g |-> g, k |-> aGets[g].k, play |-> aGets[g].play, ok |-> ok,
-                slots |-> aGets[g].slots, rows |-> rows, forb |-> aGets[g].forb]
+    /\ LET R == [g |-> g, k |-> aGets[g].k, play |-> aGets[g].play, ok |-> ok,
+                 slots |-> aGets[g].slots, rows |-> rows, forb |-> aGets[g].forb]
+       IN aRet' = [g |-> g, k |-> R.k, play |-> R.play, ok |-> ok, slots |-> R.slots, rows |-> rows, forb |-> R.forb,
+                   placement |-> PlacementOf(R), produced |-> ProducedOf(R), fresh |-> FreshOf(R)]
     /\ aGets' = ADel(aGets, {g})
     /\ UNCHANGED <<aLoads, aFin, aInv, aDead, aQui, aEmp>>
 
@@ -107,39 +141,10 @@ AEmptied(e) ==
     /\ UNCHANGED <<aLoads, aFin, aInv, aDead, aGets, aRet, aQui>>
 
 -------------------------------------------------------------------------------
-(* The property.  Only successful non-play requests are constrained. *)
-Checked == aRet.g # 0 /\ aRet.ok /\ aRet.play = 0
-NSlots  == Len(aRet.slots)
-RowsAt(i) == aRet.rows[i]
-
-(* position of slot s in the sequence of slots load l asked for (0 = not covered) *)
-PosIn(l, s) == IF \E p \in DOMAIN aLoads[l].slots : aLoads[l].slots[p] = s
-               THEN CHOOSE p \in DOMAIN aLoads[l].slots : aLoads[l].slots[p] = s ELSE 0
-GoodLoad(l, s) == /\ l \in DOMAIN aLoads /\ aLoads[l].st = "ok"
-                  /\ aLoads[l].k = aRet.k /\ PosIn(l, s) # 0
-
-Placement ==
-    Checked => /\ Len(aRet.rows) = NSlots
-               /\ \A i \in 1..NSlots : \A j \in DOMAIN RowsAt(i) :
-                      RowsAt(i)[j][1] = aRet.k /\ RowsAt(i)[j][2] = aRet.slots[i]
-
-Produced ==
-    (Checked /\ Len(aRet.rows) = NSlots) =>
-        \A i \in 1..NSlots :
-            LET rs == RowsAt(i)
-                s  == aRet.slots[i]
-            IN IF Len(rs) = 0
-               THEN \E l \in DOMAIN aLoads : GoodLoad(l, s) /\ aLoads[l].cnt[PosIn(l, s)] = 0
-                                              /\ l \notin aRet.forb[s]
-               ELSE LET l == rs[1][3]
-                    IN /\ \A j \in DOMAIN rs : rs[j][3] = l
-                       /\ GoodLoad(l, s)
-                       /\ Len(rs) = aLoads[l].cnt[PosIn(l, s)]
-                       /\ {rs[j][4] : j \in DOMAIN rs} = 0..(Len(rs) - 1)
-
-Freshness ==
-    (Checked /\ Len(aRet.rows) = NSlots) =>
-        \A i \in 1..NSlots : \A j \in DOMAIN RowsAt(i) : RowsAt(i)[j][3] \notin aRet.forb[aRet.slots[i]]
+(* The property: the verdicts computed when the last request returned *)
+Placement == aRet.placement
+Produced  == aRet.produced
+Freshness == aRet.fresh
 
 Termination == aQui = {}
 
